@@ -6,6 +6,7 @@ import (
 	"go/token"
 	"go/types"
 	"sort"
+	"strconv"
 	"strings"
 
 	"mlverif/core"
@@ -87,6 +88,7 @@ func init() {
 			}
 			c.Floor("budget hand-overs to getBroadcasts in "+site.fn, nb, 1)
 		}
+		checkEncryptOverhead(c, "C11")
 		// the raw sender encrypts exactly under the condition the budget assumed (or a weaker budget condition)
 		// and compression only replaces the payload when strictly shorter
 		rs := c.MustFunc("Memberlist.rawSendMsgPacket")
@@ -462,4 +464,84 @@ func isLocalName(s string) bool {
 		}
 	}
 	return true
+}
+
+// checkEncryptOverhead: the per-version overhead the budgets subtract covers the
+// worst case of what the encryptor adds: for each encryption version,
+// encryptOverhead(v) >= max over inputs of encryptedLength(v, n) - n. Both are
+// read from the explorations of the two helpers: the overhead helper returns a
+// constant per version; the length helper returns n plus constants and terms
+// n % B, which range over [0, B-1].
+func checkEncryptOverhead(c *Ctx, prop string) {
+	rule := "encryption overhead: for every encryption version the overhead the packet budgets subtract is at least the worst-case growth of the encryptor (version byte + nonce + padding up to a whole block + tag)"
+	c.Rule(rule)
+	ov := c.MustFunc("encryptOverhead")
+	el := c.MustFunc("encryptedLength")
+	xo, xl := c.flow(ov, map[string]string{}), c.flow(el, map[string]string{})
+	// version of an exit: 0 when vsn>=1 is false, 1 when vsn>=1 and not vsn>=2, "1+" when only vsn>=1 is known
+	version := func(cube map[string]string) string {
+		v1, has1 := atomU(cube, "vsn>=1")
+		v2, has2 := atomU(cube, "vsn>=2")
+		switch {
+		case has1 && v1 == "F":
+			return "0"
+		case has1 && v1 == "T" && has2 && v2 == "F":
+			return "1"
+		case has1 && v1 == "T" && !has2:
+			return "1+"
+		case has2 && v2 == "T":
+			return "2+"
+		}
+		return "?"
+	}
+	sub := map[string]int64{}
+	for _, ex := range xo.Exits {
+		if ex.Kind != "return" || len(ex.Ret) != 1 {
+			continue
+		}
+		if v, err := strconv.ParseInt(norm(ex.Ret[0]), 10, 64); err == nil {
+			sub[version(ex.Cube)] = v
+		} else {
+			c.Check(prop+"/overhead/encrypt", rule, ex.Pos, false, "encryptOverhead returns "+norm(ex.Ret[0])+", not a constant")
+		}
+	}
+	n := 0
+	for _, ex := range xl.Exits {
+		if ex.Kind != "return" || len(ex.Ret) != 1 {
+			continue
+		}
+		n++
+		r := norm(ex.Ret[0])
+		co, k, ok := linearName(r)
+		worst := k
+		good := ok
+		for t, cf := range co {
+			switch {
+			case cf == 0:
+			case t == "inp" && cf == 1:
+			case strings.HasPrefix(t, "(inp%") && strings.HasSuffix(t, ")"):
+				if b, err := strconv.ParseInt(t[5:len(t)-1], 10, 64); err == nil && b > 0 {
+					if cf > 0 {
+						worst += cf * (b - 1)
+					} // a negative coefficient is worst at remainder 0
+				} else {
+					good = false
+				}
+			default:
+				good = false
+			}
+		}
+		if !good {
+			c.Check(prop+"/overhead/encrypt", rule, ex.Pos, false, "encryptedLength returns "+r+": not the input length plus constants and remainders")
+			continue
+		}
+		v := version(ex.Cube)
+		for sv, have := range sub {
+			if sv == v || (v == "1+" && sv == "1") {
+				c.Check(prop+"/overhead/encrypt", rule, ex.Pos, have >= worst, fmt.Sprintf("version %s: the budgets subtract %d bytes but the encryptor can add %d (%s): a packet filled to the budget exceeds the configured size", sv, have, worst, r))
+			}
+		}
+	}
+	c.Floor("exits of the length helper (overhead rule)", n, 2)
+	c.Floor("versions with a constant overhead", len(sub), 2)
 }
